@@ -15,6 +15,7 @@ from litex.build.generic_platform import *
 
 from litex.soc.interconnect.axi.axi_common import *
 from litex.soc.interconnect.axi.axi_lite import *
+from litex.soc.interconnect import csr_bus
 
 # AXI-Lite to CSR ----------------------------------------------------------------------------------
 
